@@ -1,0 +1,67 @@
+//! Verification adapters (compiled only with `--cfg litep2p_verif`).
+//!
+//! Each adapter wraps one real component behind a line protocol: one operation per input line,
+//! one canonical observation line per operation. The external harness feeds the same operation
+//! lines to an executable formal model and compares the observations.
+
+use std::collections::HashMap;
+
+/// A component in a box, driven through the line protocol.
+pub trait VerifBox {
+    /// Execute one operation and return its canonical observation.
+    fn step(&mut self, line: &str) -> String;
+}
+
+/// Create the adapter for `area` (`c17`, ...).
+pub fn new_box(area: &str) -> Option<Box<dyn VerifBox>> {
+    match area {
+        "c17" => Some(Box::new(
+            crate::protocol::libp2p::kademlia::verif_c17::StoreBox::new(),
+        )),
+        _ => None,
+    }
+}
+
+/// Names of all adapters.
+pub fn areas() -> Vec<&'static str> {
+    vec!["c17"]
+}
+
+/// Decode a hex string.
+pub fn unhex(s: &str) -> Vec<u8> {
+    (0..s.len() / 2)
+        .map(|i| u8::from_str_radix(&s[2 * i..2 * i + 2], 16).expect("hex"))
+        .collect()
+}
+
+/// Encode bytes as hex.
+pub fn hex(b: &[u8]) -> String {
+    b.iter().map(|x| format!("{x:02x}")).collect()
+}
+
+/// Deterministic peer id number `i`: identity multihash of an ed25519 public-key protobuf whose
+/// 32 key bytes are `i` in big endian. (Only the bytes matter; the key is never used.)
+pub fn peer(i: u64) -> crate::PeerId {
+    let mut b = vec![0x00, 0x24, 0x08, 0x01, 0x12, 0x20];
+    let mut k = [0u8; 32];
+    k[24..].copy_from_slice(&i.to_be_bytes());
+    b.extend_from_slice(&k);
+    crate::PeerId::from_bytes(&b).expect("valid peer id")
+}
+
+/// Reverse of [`peer`], for printing.
+pub fn peer_index(p: &crate::PeerId) -> Option<u64> {
+    let b = p.to_bytes();
+    if b.len() == 38 && b[..6] == [0x00, 0x24, 0x08, 0x01, 0x12, 0x20] && b[6..30].iter().all(|x| *x == 0) {
+        let mut a = [0u8; 8];
+        a.copy_from_slice(&b[30..]);
+        Some(u64::from_be_bytes(a))
+    } else {
+        None
+    }
+}
+
+/// Split `k=v` arguments.
+pub fn kv<'a>(args: &[&'a str]) -> HashMap<&'a str, &'a str> {
+    args.iter().filter_map(|a| a.split_once('=')).collect()
+}
